@@ -33,7 +33,7 @@ RULE = (
     "or a table with >= 2 entries is permuted"
 )
 SPACE = {
-    "quick": "drivers: (i) 2-D pad on 2-face tables linking both axes x rule pairs x fill pairs x 2-D width sets; (ii) equivalent() on all pairs of 2-3-name signatures and their renamings; (iii) Grid(ds) for COMODO/SGRID datasets with 2-4 axes; (iv) get_metric/integrate on 3-axis registries with several partitions; (v) 2-D and 3-D pad on simple grids with per-axis rules and fill values; (vi) accept/reject of consistent and inconsistent 3-face link tables under every listing order; (vii) two-axis grid ufuncs (own and renamed dummy names, apply / decorator route) with widths and per-axis fill on both axes on 2- and 3-axis grids, arrays received by the function included; (viii) interp_like, get_metric from a corner-only measure, interp and diff-of-interp along 2-3 axes at once with per-axis rules and fill values; (ix) shifts without `to` on axes with 3-5 positions (explicit and COMODO grids), and pad / diff / interp along one axis of three-face strips whose faces list only the axes they are linked on, under every listing order; every execution with at most 2 non-default order choices (each choice ranges over all permutations of that set / table); literal seeds 0..11",
+    "quick": "drivers: (i) 2-D pad on 2-face tables linking both axes x rule pairs x fill pairs x 2-D width sets; (ii) equivalent() on all pairs of 2-3-name signatures and their renamings; (iii) Grid(ds) for COMODO/SGRID datasets with 2-4 axes; (iv) get_metric/integrate on 3-axis registries with several partitions; (v) 2-D and 3-D pad on simple grids with per-axis rules and fill values; (vi) accept/reject of consistent and inconsistent 3-face link tables under every listing order; (vii) two-axis grid ufuncs (own and renamed dummy names, apply / decorator route) with widths and per-axis fill on both axes on 2- and 3-axis grids, arrays received by the function included; (viii) interp_like, get_metric from a corner-only measure, interp and diff-of-interp along 2-3 axes at once with per-axis rules and fill values; (ix) shifts without `to` on axes with 3-5 positions (explicit and COMODO grids), and pad / diff / interp along one axis of three-face strips whose faces list only the axes they are linked on, under every listing order, and halos along two unlinked axes of a face-connected grid; every execution with at most 2 non-default order choices (each choice ranges over all permutations of that set / table); literal seeds 0..11",
     "thorough": "more tables/width sets/registries; all combinations of all permutations (no deviation bound, cap 6000 executions per configuration reported if hit); literal seeds 0..47",
 }
 BOUNDS = {"quick": {"seeds": 12, "deviations": 2}, "thorough": {"seeds": 48, "deviations": None}}
@@ -457,6 +457,9 @@ def misc_configs(tier):
     for ti in range(3):
         for what in ("pad", "diff", "interp"):
             cfgs.append(("strip", ti, what))
+    for ri in range(3):
+        for what in ("pad", "ufunc"):
+            cfgs.append(("unlinked", ri, what))
     return cfgs
 
 
@@ -498,6 +501,33 @@ def run_misc(cfg):
             r = getattr(g, op)(da, "X")
             outs += [tuple(r.dims), np.asarray(r.values, dtype=float)]
         return digest(*outs)
+    if cfg[0] == "unlinked":
+        # two tiles joined along X; the grid has two more axes (Y, Z) that no link mentions: a halo requested along both
+        # of them at once, with per-axis rules and fill values
+        from xgcm.grid_ufunc import apply_as_grid_ufunc
+
+        _, ri, what = cfg
+        n = 2
+        ds = xr.Dataset(coords={"x": ("x", np.arange(n) + 0.5), "xl": ("xl", np.arange(n) * 1.0), "y": ("y", np.arange(n) + 0.5), "yl": ("yl", np.arange(n) * 1.0),
+                                "z": ("z", np.arange(n) + 0.5), "zl": ("zl", np.arange(n) * 1.0), "face": ("face", [0, 1])})
+        fc = permuted_dict({0: {"X": (None, (1, "X", False))}, 1: {"X": ((0, "X", False), None)}}, "faces")
+        g = Grid(ds, coords={"X": {"center": "x", "left": "xl"}, "Y": {"center": "y", "left": "yl"}, "Z": {"center": "z", "left": "zl"}},
+                 face_connections={"face": fc}, periodic=False, autoparse_metadata=False)
+        da = xr.DataArray(np.arange(2 * n ** 3, dtype=float).reshape(2, n, n, n) + 1, dims=["face", "z", "y", "x"])
+        rules = (("fill", "fill"), ("fill", "extend"), ("extend", "fill"))[ri]
+        kw = dict(boundary={"X": "extend", "Y": rules[0], "Z": rules[1]}, fill_value={"X": 0.0, "Y": -1.0, "Z": -2.0})
+        if what == "pad":
+            r = pad(da, g, {"Y": (1, 1), "Z": (1, 0)}, **kw)
+            return digest(tuple(r.dims), r.values)
+        got = []
+
+        def f(a):
+            got.append(np.array(a))
+            return a[..., 1:-1, 1:]
+
+        r = apply_as_grid_ufunc(f, da, axis=[("Y", "Z")], grid=g, signature="(Y:center,Z:center)->(Y:center,Z:center)",
+                                boundary_width={"Y": (1, 1), "Z": (1, 0)}, **kw)
+        return digest(tuple(r.dims), r.values, *got)
     _, ti, what = cfg
     table = STRIPS[ti]
     N = 3
@@ -518,7 +548,7 @@ def run_misc(cfg):
     return digest(tuple(r.dims), r.values)
 
 
-DRIVERS = {"pad": run_pad, "equiv": run_equiv, "comodo": run_parse, "sgrid": run_parse, "metric": run_metric, "simple": run_simple, "table": run_table, "ufunc": run_ufunc, "move": run_move, "defaults": run_misc, "strip": run_misc}
+DRIVERS = {"pad": run_pad, "equiv": run_equiv, "comodo": run_parse, "sgrid": run_parse, "metric": run_metric, "simple": run_simple, "table": run_table, "ufunc": run_ufunc, "move": run_move, "defaults": run_misc, "strip": run_misc, "unlinked": run_misc}
 
 
 def all_configs(tier):
